@@ -28,6 +28,8 @@ namespace Infretis.Config
     `calc_cv_vector` (AssertionError / IndexError / ValueError), `add_traj`'s assertion and an
     IndexError from `paths[i + 1]` -/
 inductive InitErr | cfg (e : Err) | wf (e : Infretis.WF.Err) | assert | index
+  /-- ValueError of `self.state[ens, :] = valid` when the weight vector is not as wide as the state -/
+  | value
 deriving Repr, DecidableEq
 
 /-- `REPEX_state.cap`: `config["simulation"]["tis_set"].get("interface_cap", None)` -/
@@ -86,6 +88,61 @@ def loadPaths (c : Cfg) (paths : List (List Int)) : Except InitErr (List (List N
       | .error e => .error e
       | .ok r0 => .ok (r0 :: rows ++ [List.replicate (size + 1) 0])
 
+/-! ### the same loop for a state of `size + 1` rows, `size = config["current"]["size"]`
+
+`REPEX_state.__init__` sizes the state with `n = current.size + 1`, `load_paths` loops over `size - 1` plus
+paths, and `add_traj` writes the padded weight vector into a row of width `n`: numpy raises ValueError
+("could not broadcast input array") when the vector — one entry per interface plus the offset — has another
+width (a vector of width 1 would be broadcast; the padded vectors here have at least 2 entries).  The
+definitions above are the case `size = len(interfaces)`, where that test cannot fire
+(`loadPathsW_eq_loadPaths` in Props/C18). -/
+
+/-- `add_traj` on a state of width `n`: `assert valid[ens] != 0` (IndexError first), `self._trajs[ens] = traj`
+    (IndexError when `ens ≥ n`), then `self.state[ens, :] = valid` (ValueError unless the widths agree) -/
+def addTrajW (n : Nat) (ens : Nat) (valid : List Nat) : Except InitErr (List Nat) :=
+  match valid[ens]? with
+  | none => .error .index
+  | some 0 => .error .assert
+  | some _ =>
+    if n ≤ ens then .error .index
+    else if valid.length = n then .ok valid
+    else .error .value
+
+/-- one turn of the loop of `load_paths` for a state written for `size` interfaces -/
+def loadPlusOneW (c : Cfg) (size : Nat) (i : Nat) (paths : List (List Int)) : Except InitErr (List Nat) :=
+  match paths[i + 1]? with
+  | none => .error .index
+  | some ops =>
+    match c.lm1 with
+    | .absent => .error (.cfg .key)
+    | _ =>
+      match Infretis.WF.cvVector ops c.interfaces c.moves.tail (stateCap c) with
+      | .error e => .error (.wf e)
+      | .ok ws => addTrajW (size + 1) (i + 1) (padPlus ws)
+
+def loadPlusW (c : Cfg) (size : Nat) (paths : List (List Int)) : Nat → Nat → Except InitErr (List (List Nat))
+  | _, 0 => .ok []
+  | start, count + 1 =>
+    match loadPlusOneW c size start paths with
+    | .error e => .error e
+    | .ok row =>
+      match loadPlusW c size paths (start + 1) count with
+      | .error e => .error e
+      | .ok rows => .ok (row :: rows)
+
+/-- `load_paths` on a state written for `size` interfaces: `for i in range(size - 1)`, then the [0-] path;
+    the rows of ensembles that got no path stay zero (only the ghost row when nothing raised) -/
+def loadPathsW (c : Cfg) (size : Nat) (paths : List (List Int)) : Except InitErr (List (List Nat)) :=
+  match loadPlusW c size paths 0 (size - 1) with
+  | .error e => .error e
+  | .ok rows =>
+    match paths[0]? with
+    | none => .error .index
+    | some _ =>
+      match addTrajW (size + 1) 0 (padMinus size [1]) with
+      | .error e => .error e
+      | .ok r0 => .ok (r0 :: rows ++ [List.replicate (size + 1) 0])
+
 /-- what `setup_internal` hands on: the ensembles, the W matrix of the state, `md_items["cap"]`,
     `md_items["interfaces"]`, `md_items["mc_moves"]` -/
 structure InitState where
@@ -96,9 +153,9 @@ structure InitState where
   moves : List Bool
 deriving Repr, DecidableEq
 
-/-- `setup_internal`: `initiate_ensembles`, `load_paths`, the first `md_items`
-    (engine creation, logger and pattern header are outside the model) -/
-def setupInternal (c : Cfg) (paths : List (List Int)) : Except InitErr InitState :=
+/-- `setup_internal` for a state that has one slot per interface: `initiate_ensembles`, `load_paths`, the
+    first `md_items` (engine creation, logger and pattern header are outside the model) -/
+def setupInternalAligned (c : Cfg) (paths : List (List Int)) : Except InitErr InitState :=
   match initEnsembles c with
   | .error e => .error (.cfg e)
   | .ok es =>
@@ -107,10 +164,31 @@ def setupInternal (c : Cfg) (paths : List (List Int)) : Except InitErr InitState
     | .ok w => .ok { ensembles := es, matrix := w, cap := stateCap c,
                      interfaces := c.interfaces, moves := c.moves }
 
+/-- `setup_internal`: `REPEX_state(config)` reads `config["current"]["size"]` (KeyError without a `[current]`
+    table) and sizes the state with it, then `initiate_ensembles`, `load_paths` on that state, the first
+    `md_items`.  (`setupInternalAligned` above is the case `size = len(interfaces)`.) -/
+def setupInternal (c : Cfg) (paths : List (List Int)) : Except InitErr InitState :=
+  match c.curSize with
+  | none => .error (.cfg .key)
+  | some size =>
+    match initEnsembles c with
+    | .error e => .error (.cfg e)
+    | .ok es =>
+      match loadPathsW c size paths with
+      | .error e => .error e
+      | .ok w => .ok { ensembles := es, matrix := w, cap := stateCap c,
+                       interfaces := c.interfaces, moves := c.moves }
+
 /-- `setup_config` followed by `setup_internal`, the whole start-up of `bin.py`/`scheduler` up to
     the first `md_items` -/
 def startUp (c : Cfg) (paths : List (List Int)) : Except InitErr InitState :=
   match setupConfig c with
+  | .error e => .error (.cfg e)
+  | .ok c' => setupInternal c' paths
+
+/-- the start-up as it was before /repo commit 971ccbc: the old `check_config`, the same `setup_internal` -/
+def startUpAsIs (c : Cfg) (paths : List (List Int)) : Except InitErr InitState :=
+  match setupConfigAsIs c with
   | .error e => .error (.cfg e)
   | .ok c' => setupInternal c' paths
 
@@ -130,6 +208,9 @@ structure TomlFile where
   cfg : Cfg
   pattern : Bool
   current : Option Restart
+  /-- the file already has the key `output.pattern_file` (a restart file of a run with `output.pattern`
+      carries it: `write_toml` dumps the whole configuration) -/
+  hasPatternFile : Bool := false
 deriving Repr, DecidableEq
 
 /-- `for key in config.keys(): if config[key] != re_config.get(key, {}): equal = False` -/
@@ -154,7 +235,8 @@ deriving Repr, DecidableEq
 
 /-- what `setup_config` returns: the normalised configuration, its `[current]` table (`none` = taken from
     the restart file as it is, with `restarted_from = cstep`), whether the data-file header was (re)written
-    and whether `output.pattern_file` was set -/
+    and whether the returned configuration has the key `output.pattern_file` (set on a fresh start with
+    `output.pattern`, otherwise whatever the file carried) -/
 structure SetupOut where
   cfg : Cfg
   fresh : Option Current
@@ -179,13 +261,14 @@ def setupConfigFiles (inp : Option TomlFile) (samePath : Bool) (re : Option Toml
     | .ok (some c') =>
       match f.current with
       | some cur => .ok (some { cfg := c', fresh := none, restartedFrom := some cur.cstep,
-                                wroteHeader := false, patternFile := false })
+                                wroteHeader := false, patternFile := f.hasPatternFile })
       | none =>
         let size := f.cfg.interfaces.length
         .ok (some { cfg := c',
                     fresh := some { trajNum := size, cstep := 0, active := List.range size, size := size,
                                     restartedFrom := none },
-                    restartedFrom := none, wroteHeader := true, patternFile := f.pattern })
+                    restartedFrom := none, wroteHeader := true,
+                    patternFile := f.pattern || f.hasPatternFile })
 
 /-! ### create_engines: how many instances of every engine (factory.py:62-103) -/
 
